@@ -2,7 +2,9 @@
 """C20 - bound BydbQL parameters are data, never syntax.
 
 spec/Bydbql.tla (TLC): statements of a bounded BydbQL grammar with placeholders in every legal value
-position x parameter vectors from a hostile value pool x histories over an LRU prepared cache.
+position (also the `id` position of a PROPERTY select: `id = ?`, `id IN (?, ..)`, whose values become
+QueryRequest.ids and must never be NULL) x parameter vectors from a hostile value pool x histories over an
+LRU prepared cache.
 
   A  every single execution (statement, vector) of the bounded grammar: TLC checks RejectIffInvalid /
      ShapePreserved / NoLeak on each, every execution is exported (state dump) and replayed on the real
@@ -51,6 +53,12 @@ TEMPLATES = [
     stmt('stream', time=('=', [PH]), conds=[('i', '=', [PH])], l=PH, f=I('3')),
     stmt('stream', conds=[('s', 'MATCH', [PH], 'one'), ('i', 'HAVING', [PH, I('3')], 'many')]),
     stmt('trace', conds=[('s', 'HAVING', [PH], 'one')], l=PH),
+]
+# statements with the property-ID position: every selection of part B holds one of them
+ID_TEMPLATES = [
+    stmt('property', conds=[('id', '=', [PH])]),
+    stmt('property', conds=[('id', 'IN', [PH, PH]), ('s', '=', [PH])], l=PH),
+    stmt('property', conds=[('i', '>', [PH]), ('id', 'IN', [S('lit'), PH, I('3')])], join='OR'),
 ]
 LITERAL = stmt('stream', conds=[('s', '=', [S('lit')])])          # no placeholder: bypasses the cache
 
@@ -219,6 +227,7 @@ def main():
 
     tot = dict(states=0, transitions=0, behaviours=0, steps=0)
     stats, samples, seen_sigs, runs = {}, [], set(), []
+    id_samples = {}     # kind of parameter at the property-ID position -> first written-out execution
 
     def absorb(res):
         for k, v in res['stats'].items():
@@ -226,7 +235,9 @@ def main():
         tot['behaviours'] += res['behaviours']
         tot['steps'] += res['steps']
         for s in res['samples']:
-            if len(samples) < 5:
+            if isinstance(s, dict) and 'id_sample' in s:
+                id_samples.setdefault(s['id_sample'], s)
+            elif len(samples) < 5:
                 samples.append(s)
 
     def handle(res, get_behaviour, hargs, what):
@@ -257,13 +268,13 @@ def main():
     na = 0
     # ================================================================ A: every single execution
     if c.quick:
-        a_filter = ('(NumSlots(s) = 1 /\\ LitClauses(s) = 0) \\/ (NumSlots(s) = 2 /\\ LitClauses(s) = 0 /\\ s.order = "none" /\\ s.kind \\in {"stream", "measure", "topn"})')
+        a_filter = ('(NumSlots(s) = 1 /\\ LitClauses(s) = 0) \\/ (NumSlots(s) = 2 /\\ LitClauses(s) = 0 /\\ s.order = "none" /\\ (s.kind \\in {"stream", "measure", "topn"} \\/ HasId(s)))')
         a_values = ('{ v \\in AllValues : CASE v.t = "str" -> v.v \\in {"a\' OR \'1\'=\'1", "x -- c", "/* c */", "a,b", "", "SELECT", "?", '
                     '"back\\\\slash\\\\\'q", "7", "2026-02-03T04:05:06Z", "b1"} '
                     '[] v.t = "int" -> v.v \\in {"-1", "0", "7", "i32max", "i32max+1", "u32max", "u32max+1", "i64max"} [] OTHER -> TRUE }')
     else:
         a_filter = ('(NumSlots(s) = 1) \\/ (NumSlots(s) = 2 /\\ LitClauses(s) = 0 /\\ s.order = "none") \\/ '
-                    '(NumSlots(s) = 3 /\\ LitClauses(s) = 0 /\\ s.order = "none" /\\ s.kind = "stream")')
+                    '(NumSlots(s) = 3 /\\ LitClauses(s) = 0 /\\ s.order = "none" /\\ (s.kind = "stream" \\/ HasId(s)))')
         a_values = 'AllValues'
     selftest = {}
     if 'A' in parts:
@@ -290,7 +301,7 @@ def main():
         runs.append(dict(part='A', filter=a_filter, states=ra.distinct, executions=na, tlc_s=round(ra.wall, 1)))
 
         # binding self-test: corrupt the expected verdict / one literal / the shape -> the harness must object
-        probe = None
+        probe = probe_id = None
         with open(fa) as f:
             for line in f:
                 if '"rej": "no"' not in line or '"t": "str"' not in line:
@@ -298,12 +309,20 @@ def main():
                 b = json.loads(line)
                 h = b['states'][1]['hist'][0]
                 if h['out']['rej'] == 'no' and h['params'] and all(p.get('t') == 'str' for p in h['params']) and h['stmt']['w']['conds']:
-                    probe = b
-                    break
+                    cds = h['stmt']['w']['conds']
+                    if probe is None and not any(cd['tag'] == 'id' for cd in cds):
+                        probe = b
+                    # `... WHERE id = ?` with one string parameter, accepted
+                    if probe_id is None and len(cds) == 1 and cds[0]['tag'] == 'id' and cds[0]['op'] == '=' and len(h['params']) == 1 and h['params'][0]['v']:
+                        probe_id = b
+                    if probe is not None and probe_id is not None:
+                        break
         if not os.environ.get('VERIF_C20_KEEP'):
             os.remove(fa)
         if probe is None:
             c.inconclusive('self-test: no accepted execution with a string parameter found')
+        if probe_id is None:
+            c.inconclusive('self-test: no accepted execution of `id = ?` with a string parameter found')
         m1 = json.loads(json.dumps(probe))
         m1['states'][1]['hist'][0]['out'] = {'rej': 'bind'}
         m2 = json.loads(json.dumps(probe))
@@ -313,11 +332,24 @@ def main():
                     a['v'] = a['v'] + "' OR s = 'x"
         m3 = json.loads(json.dumps(probe))
         m3['states'][1]['hist'][0]['out']['shape']['where'] = m3['states'][1]['hist'][0]['out']['shape']['where'] + [{'tag': 's', 'op': '='}]
-        for name, mb in (('flipped_verdict', m1), ('corrupted_literal', m2), ('corrupted_shape', m3)):
+        # the same at the property-ID position: a wrong ID in the expected literal; the expectation a missing NULL guard
+        # would satisfy (id = ? with NULL accepted as id = ''); one ID condition too many in the expected shape
+        m4 = json.loads(json.dumps(probe_id))
+        m4['states'][1]['hist'][0]['out']['lit']['w']['conds'][0]['args'][0]['v'] += 'x'
+        m5 = json.loads(json.dumps(probe_id))
+        for where in (m5['states'][1]['hist'][0], m5['states'][1]['last']):
+            where['params'] = [{'t': 'null'}]
+        m5['states'][1]['hist'][0]['out']['lit']['w']['conds'][0]['args'][0]['v'] = ''
+        m6 = json.loads(json.dumps(probe_id))
+        m6['states'][1]['hist'][0]['out']['shape']['ids'] = m6['states'][1]['hist'][0]['out']['shape']['ids'] + ['IN']
+        want_sig = {'corrupted_id_literal': 'bound-differs-from-literal', 'null_id_expected_accepted': 'rejected-valid-params', 'corrupted_id_shape': 'literal-shape'}
+        for name, mb in (('flipped_verdict', m1), ('corrupted_literal', m2), ('corrupted_shape', m3),
+                         ('corrupted_id_literal', m4), ('null_id_expected_accepted', m5), ('corrupted_id_shape', m6)):
             fm = c.write_behaviours('selftest', [mb['states']])
             rm = c.run_harness(binp, ['-mode', 'replay', '-in', fm, '-shared'])
             os.remove(fm)
-            selftest[name] = bool(rm['violations'])
+            selftest[name] = (any(v['signature'].startswith(want_sig[name]) for v in rm['violations']) if name in want_sig
+                              else bool(rm['violations']))
 
     # ================================================================ B: histories over the prepared cache
     nsel = 1 if 'B' in parts else 0
@@ -326,7 +358,7 @@ def main():
     b_behaviours = 0
     action_cov = {}
     for sel in range(nsel):
-        chosen = rnd.sample(TEMPLATES, 3) + [LITERAL]
+        chosen = rnd.sample(TEMPLATES, 2) + [rnd.choice(ID_TEMPLATES)] + [LITERAL]
         fc = os.path.join(core.BUILD, 'beh', 'C20-cost-%d.json' % os.getpid())
         json.dump(chosen, open(fc, 'w'))
         rc = c.run_harness(binp, ['-mode', 'cost', '-in', fc])
@@ -447,12 +479,21 @@ def main():
     need = ['executions_oneshot', 'executions_prepared', 'executions_cached', 'executions_service', 'rejections_agreed', 'requests_equal_to_literal',
             'rejected_by_literal_rules', 'cache_states_compared', 'reexecutions', 'reexecutions_on_cached_template', 'amplified_executions',
             'cres_hit', 'cres_miss', 'cres_reparse', 'cres_bypass'] + ([] if c.quick else ['cres_off'])
+    # the property-ID position: on every path, at `id = ?` and at an element of `id IN (..)`, a NULL and a missing value
+    # were refused, plain / quoted / empty strings and integers went through; arrays expanded in the list and were
+    # refused at the scalar position
+    for path in ('oneshot', 'prepared', 'cached', 'service'):
+        for slot in ('idscalar', 'idlist'):
+            need += ['idpos_%s_%s_%s' % (path, slot, k) for k in
+                     ('null_rejected', 'nil_rejected', 'none_rejected', 'bin_rejected', 'str_accepted', 'strq_accepted', 'strempty_accepted', 'int_accepted')]
+        need += ['idpos_%s_idlist_%s' % (path, k) for k in ('strs_accepted', 'ints_accepted')]
+        need += ['idpos_%s_idscalar_%s' % (path, k) for k in ('strs_rejected', 'ints_rejected')]
     if parts != 'ABW':
         c.inconclusive('partial run (VERIF_C20_PARTS=%s): %s' % (parts, json.dumps(runs)))
     vac = [k for k in need if not stats.get(k)]
     if vac:
         c.inconclusive('vacuous run: never exercised: %s' % vac)
-    if not all(selftest.values()) or len(selftest) < 4:
+    if not all(selftest.values()) or len(selftest) < 7:
         c.inconclusive('binding self-test failed: a corrupted expectation was accepted (or could not be built): %s' % selftest)
 
     c.cov.update(
@@ -464,7 +505,9 @@ def main():
              'random wide histories of part W; disagreements_checked = executions compared with the spec and with the literalised statement on every '
              'code path; non-trivial = a cache history containing a re-parse, or a hit after an eviction; distinct by full state sequence',
         exhaustive=all(r.get('graph_edges_uncovered', 0) == 0 for r in runs),
-        harness_stats=stats, cache_verdicts_seen=verdicts, runs=runs, action_coverage=action_cov, binding_selftest_rejected=all(selftest.values()), binding_selftest=selftest,
+        harness_stats=stats, cache_verdicts_seen=verdicts,
+        id_position={k[6:]: v for k, v in sorted(stats.items()) if k.startswith('idpos_')},
+        id_position_samples=[id_samples[k] for k in sorted(id_samples)], runs=runs, action_coverage=action_cov, binding_selftest_rejected=all(selftest.values()), binding_selftest=selftest,
         samples=samples,
     )
     c.assumptions += [
@@ -473,7 +516,10 @@ def main():
         'integers and timestamps are tokens in the spec and concretised by the harness (i32max = 2147483647, u32max = 4294967295, ...)',
         'relative times / now are excluded (absolute RFC3339 only); the wall-clock end of an open TIME > range is masked on both sides',
         'the accounted byte cost of a statement is read from the code (len(text) + EstimatedSize) and given to the spec as Cost; the evicted-hash set is modelled without collisions',
-        'schema: tags s (string), i (int), field f; one group; property queries without ID conditions; MATCH / HAVING are outside the bounded grammar',
+        'schema: tags s (string), i (int), field f; one group; property ID conditions: id = v and id IN (..) alone, before a condition on s or after a condition on i '
+        '(AND / OR); id with any other operator (always refused) is outside the bounded grammar',
+        'the ID conditions of a result are read from the grammar tree the transformer worked on (operators, textual order) and the number of IDs from the native request; '
+        'the connective between an ID condition and a tag condition is not visible in the native request (the transformer drops it) and therefore not compared',
         'part A: statements with %s; full value pool in every slot of 1-placeholder statements, one slot varied against a valid distinct baseline otherwise, plus missing/surplus vectors' % a_filter,
     ]
     c.finish()
